@@ -200,10 +200,11 @@ Variable inflate : list Z -> Z -> option (list Z * bool).
 (* the reader of a linked file (bytes -> abstract file); the model supplies its own *)
 Variable parse : list Z -> option elf.
 
-(* [blob] is a complete zlib stream of [p] (any compression level, any flush pattern) *)
+(* [blob] is a complete zlib stream of [p] (any compression level, any flush pattern).
+   max_length is a C ssize_t: nothing is said about max_length >= 2^63 (CPython refuses it) *)
 Definition deflated (blob p : list Z) : Prop :=
   inflate blob 0 = Some (p, true) /\
-  forall n, 0 < n -> inflate blob n = Some (firstn (Z.to_nat n) p, zlen p <=? n).
+  forall n, 0 < n < 2 ^ 63 -> inflate blob n = Some (firstn (Z.to_nat n) p, zlen p <=? n).
 
 (* --- what a section holds: (content, logical size); None = rejected --- *)
 Definition gabi_payload (le is64 : bool) (s : sec) : option (list Z * Z) :=
@@ -484,6 +485,21 @@ Definition link_section (name body : list Z) (off : Z) (tail : list Z) : sec :=
 Definition add_section (s : sec) (e : elf) : elf :=
   mkElf (e_le e) (e_is64 e) (e_machine e) (e_flags e) (e_secs e ++ [s]).
 
+(* --- keep-debug (objcopy --only-keep-debug): the contents of sections the DWARF reader
+       never asks for are dropped — the section becomes SHT_NOBITS and what lies at its
+       offset is arbitrary.  A name the reader asks for: one of the slot names or its legacy
+       spelling; the link carrier and relocation sections are kept as well.  (objcopy also
+       empties .eh_frame, which IS a slot: that part of its output is not an invariance.) --- *)
+Definition observed (n : list Z) : bool :=
+  name_in n slot_names || name_in n (map zname slot_names).
+Definition kept (s : sec) : bool :=
+  observed (s_name s) || bytes_eqb (s_name s) n_debuglink || is_reloc_sec s.
+Definition keep_debug_sec (fill : nat -> list Z) (i : nat) (s : sec) : sec :=
+  if kept s then s
+  else mkSec (s_name s) SHT_NOBITS (s_flags s) (s_addr s) (s_offset s) (s_size s) (s_link s) (s_info s) (fill i).
+Definition T_keep_debug (fill : nat -> list Z) (e : elf) : elf :=
+  mkElf (e_le e) (e_is64 e) (e_machine e) (e_flags e) (map_idx (keep_debug_sec fill) 0 (e_secs e)).
+
 (* ====================================================================== well-formedness (bool) *)
 Definition no_phantom (e : elf) : bool := negb (has_phantom e).
 (* a file in the plain naming: nothing is called .zdebug_* or .rel[a].zdebug_* *)
@@ -498,11 +514,12 @@ Definition plain_complete (s : sec) : bool :=
 
 (* ====================================================================== domains of the
    invariance theorems, as executable predicates *)
-(* --- gABI: a re-encoded section is stored plainly and completely, is not the carrier
+(* --- gABI: a re-encoded section is stored plainly and completely, is smaller than 2^63
+       bytes (its size becomes zlib's max_length), is not the carrier
        of the debug link (whose payload the reader takes from the file, not from the
        section contents), and the header values fit their fields --- *)
 Definition gabi_ok (le is64 : bool) (a : gabi_args) (s : sec) : bool :=
-  plain_complete s && negb (bytes_eqb (s_name s) n_debuglink) &&
+  plain_complete s && (s_size s <? 2 ^ 63) && negb (bytes_eqb (s_name s) n_debuglink) &&
   fits_layout (spec_Elf_Chdr le is64)
               (chdr_vals is64 ELFCOMPRESS_ZLIB (g_reserved a) (s_size s) (g_align a)).
 
@@ -545,4 +562,5 @@ Fixpoint set_nth {A} (k : nat) (x : A) (l : list A) : list A :=
    so the hypotheses of the invariance theorems are satisfiable *)
 Definition inflate_stored (blob : list Z) (n : Z) : option (list Z * bool) :=
   if n =? 0 then Some (blob, true)
+  else if 2 ^ 63 <=? n then None                      (* OverflowError *)
   else Some (firstn (Z.to_nat n) blob, zlen blob <=? n).
